@@ -107,7 +107,7 @@ def run(tier):
 
     ck = Check("C01", tier)
     ck.assumptions += ASSUMPTIONS
-    br = common.build()
+    br = common.build("C01")
     ck.proofs(br)
     m = Model() if br.ok else None
     quick = tier == "quick"
